@@ -622,6 +622,15 @@ int sx127x_create(void *spi_device, sx127x *result) {
   return SX127X_OK;
 }
 
+void sx127x_set_active_modem(sx127x_mode_t opmod, sx127x_modulation_t modulation, sx127x *device) {
+  // the packet in progress (expected length, bytes sent or received so far) belongs to the modem that is left
+  if ((device->active_modem == SX127x_MODULATION_LORA) != (modulation == SX127x_MODULATION_LORA)) {
+    sx127x_fsk_ook_reset_state(device);
+  }
+  device->active_modem = modulation;
+  device->opmod = opmod;
+}
+
 int sx127x_set_opmod(sx127x_mode_t opmod, sx127x_modulation_t modulation, sx127x *device) {
   // enforce DIO mappings for RX and TX
   if (modulation == SX127x_MODULATION_LORA) {
@@ -650,8 +659,7 @@ int sx127x_set_opmod(sx127x_mode_t opmod, sx127x_modulation_t modulation, sx127x
       // use sequencer to send single packet and stop carrier
       uint8_t value = 0b10010000;
       ERROR_CHECK(sx127x_shadow_spi_write_register(REGSEQCONFIG1, &value, 1, &device->spi_device));
-      device->active_modem = modulation;
-      device->opmod = opmod;
+      sx127x_set_active_modem(opmod, modulation, device);
       return SX127X_OK;
     }
   } else {
@@ -660,8 +668,7 @@ int sx127x_set_opmod(sx127x_mode_t opmod, sx127x_modulation_t modulation, sx127x
   uint8_t value = (opmod | modulation);
   int result = sx127x_shadow_spi_write_register(REGOPMODE, &value, 1, &device->spi_device);
   if (result == SX127X_OK) {
-    device->active_modem = modulation;
-    device->opmod = opmod;
+    sx127x_set_active_modem(opmod, modulation, device);
   }
   return result;
 }
